@@ -1048,6 +1048,9 @@ def c12(chk):
     # ... and the same programs with nobody holding the goroutines back, inline and through the gRPC client
     conc_check(chk, programs_c12(), 30 if quick else 400, 10 if quick else 120, 2, family_owner="C12",
                free=(programs_c12(), 6 if quick else 100))
+    # files held open for writing across other operations, several at once (FsDb.tla WOpen / WClose), both clients
+    l1_stage(chk, "interleaved_creates", dict(Keys=K2, MaxTx=1, MaxSteps=6 if quick else 7, Levels={"RC"}, Ops={"set", "begin", "commit", "writer"}),
+             mode="both", keep=has("wclose"), sample=1200 if quick else 20000)
     chk.assumptions += ["the component replay uses 1..4-byte buffers; the end-to-end stage uses the real 32 KiB copy buffer"]
 
 
@@ -1069,6 +1072,8 @@ WP_SCENARIOS = [
     dict(name="stop_before_run", workers=1, jobs=0, stoppers=1, runners=1, startRunning=False),
     dict(name="parent_cancel_then_stop", workers=1, jobs=2, stoppers=1, runners=0, cancellers=1, startRunning=True),
     dict(name="parent_cancel_stop_run", workers=1, jobs=1, stoppers=1, runners=1, cancellers=1, startRunning=True),
+    # a pool that is used up to its deferred path, stopped, started and used up to its deferred path again
+    dict(name="used_stopped_used_again", workers=1, jobs=8, stoppers=1, runners=1, startRunning=True, phased=4),
 ]
 
 
@@ -1092,7 +1097,7 @@ def c16(chk):
     # ---- design: safety, liveness and panic freedom of WPool.tla on small configurations
     wd = vlib.scratch("wpd")
     try:
-        inv = ("AtMostOnce", "NoPanic", "NoStartAfterStop", "StopWaitsForJobs", "NoStrandedJob")
+        inv = ("AtMostOnce", "NoPanic", "NoStartAfterStop", "StopWaitsForJobs", "NoStrandedJob", "NoStrandedAfterRestart", "NoOrphanRole")
         designs = [("deferred_3jobs", WP_SCENARIOS[0], 3), ("two_stops", WP_SCENARIOS[5], None), ("stop_vs_sends", WP_SCENARIOS[3], 2 if quick else 3),
                    ("send_before_run", WP_SCENARIOS[7], None), ("stop_run_send", WP_SCENARIOS[6], None), ("two_runs", WP_SCENARIOS[8], None),
                    ("parent_cancel_then_stop", WP_SCENARIOS[10], None)]
@@ -1107,6 +1112,15 @@ def c16(chk):
             if r.violation:
                 st["tlc_violation"] = r.violation[:600]
                 chk.extra.setdefault("design_counterexamples", []).append({"stage": name, "text": r.violation[:2500]})
+        # vacuity guard: a seeded slip of the repair (the flusher keeps its role when it leaves a stopping pool) must be refuted
+        consts = wp_consts(WP_SCENARIOS[6], "nounlock", ordered=True)
+        cfg = os.path.join(wd, "guard.cfg")
+        vlib.write_cfg(cfg, consts, invariants=("NoStrandedAfterRestart",))
+        r = vlib.run_tlc("WPool.tla", cfg, wd, timeout=1500)
+        st = chk.add_tlc("design_guard_nounlock", r, consts)
+        st["seeded_slip_refuted"] = bool(r.violation)
+        if not r.violation:
+            raise Inconclusive("WPool.tla does not refute the seeded slip 'nounlock': NoStrandedAfterRestart is vacuous")
         if not quick:
             # liveness proper, on the smallest configuration that shows the deferred path
             consts = wp_consts(WP_SCENARIOS[0], var, ordered=True, jobs=2)
@@ -1430,6 +1444,10 @@ def c11(chk):
             spec_stage(chk, "download_%d_u%d" % (rep, unit), "Download.tla",
                        dict(Lens={0, 1, 2, 3, 4} if quick else {0, 1, 2, 3, 4, 5, 6, 9}, Kinds={"none", "cut", "cancel"}, Apis={"get", "reader"}, Variant=up_var, Unit=unit),
                        view=None, emit="Emit", invariants=("XReadIsExact", "Prefix"), properties=(), exe="faults", fs=False, chunk=12)
+    # three files open for writing at once through one client (each an open stream), other calls in between
+    three = lambda b: sum(1 for st in b if st["op"] == "wopen") >= 3  # noqa: E731
+    l1_stage(chk, "three_open_files", dict(Keys=K2, MaxTx=0, MaxSteps=6 if quick else 7, Levels={"RC"}, Ops={"set", "writer"}),
+             mode="both", keep=three, sample=400 if quick else 6000)
     # a reader that pauses for seconds in the middle of a large download (nothing fails: it must get everything)
     spec_stage(chk, "download_slow_reader", "Download.tla", dict(Lens={4, 6} if quick else {1, 4, 6, 9}, Kinds={"pause"}, Apis={"reader"}, Variant=up_var, Unit=64),
                view=None, emit="Emit", invariants=("XReadIsExact", "Prefix"), properties=(), exe="faults", fs=False, chunk=1,
